@@ -542,7 +542,7 @@ Definition tuple_eqb (nz : bool) (a b : list cv) : bool :=
 Definition holds_now (sch : schema) (cols : list bytes) (t : list cv) (d : drec) : bool :=
   match cur d with Some l => tuple_eqb (s_nz sch) (tuple_of sch cols (l_id l) (l_row l)) t | None => false end.
 (* doUpsert (existsLiveKeyWithPrefix): every live entry under the value prefix counts;
-   true = the write is admitted *)
+   true = the write is allowed *)
 Definition uniq_check1 (sch : schema) (cols : list bytes) (t : list cv) (all : list drec) : bool :=
   negb (existsb (holds_now sch cols t) all).
 
@@ -555,7 +555,7 @@ Definition pending := list (list bytes * list cv).
 Definition pend_has (nz : bool) (pd : pending) (cols : list bytes) (t : list cv) : bool :=
   existsb (fun e => list_eqb bytes_eqb (fst e) cols && tuple_eqb nz (snd e) t) pd.
 
-(* the unique checks of one upsert of (id, r): Some pd' = admitted, with the pending entries *)
+(* the unique checks of one upsert of (id, r): Some pd' = allowed, with the pending entries *)
 Fixpoint uniq_checks_ix (st : state) (is_insert : bool) (id : bytes) (r : row) (ixs : list index)
          (pd : pending) : option pending :=
   match ixs with
